@@ -3,6 +3,7 @@
 package crypto
 
 import (
+	"bytes"
 	"crypto/rand"
 	"crypto/sha256"
 	"encoding/binary"
@@ -165,21 +166,20 @@ func (s *SessionKey) Decrypt(ciphertext []byte) ([]byte, error) {
 	var nonce [NonceSize]byte
 	copy(nonce[:], ciphertext[:NonceSize])
 
-	// Verify nonce is in expected range (optional, helps detect replay/reorder)
+	// Verify the nonce carries the peer's direction prefix and is in the expected
+	// range. A frame with our own send prefix (reflected back to us) or any other
+	// prefix was not produced by the opposite endpoint.
 	s.mu.Lock()
 	expectedNonce := s.buildRecvNonce()
-	// Allow some slack for out-of-order delivery (up to 1024 messages ahead)
 	nonceValue := binary.BigEndian.Uint64(nonce[4:])
 	expectedValue := binary.BigEndian.Uint64(expectedNonce[4:])
+	s.mu.Unlock()
+	if !bytes.Equal(nonce[:4], expectedNonce[:4]) {
+		return nil, fmt.Errorf("unexpected nonce direction prefix")
+	}
 	if nonceValue < expectedValue {
-		s.mu.Unlock()
 		return nil, fmt.Errorf("nonce too old: received %d, expected >= %d", nonceValue, expectedValue)
 	}
-	// Update expected nonce if this one is higher
-	if nonceValue >= s.recvNonce {
-		s.recvNonce = nonceValue + 1
-	}
-	s.mu.Unlock()
 
 	aead, err := chacha20poly1305.New(s.key[:])
 	if err != nil {
@@ -190,6 +190,17 @@ func (s *SessionKey) Decrypt(ciphertext []byte) ([]byte, error) {
 	if err != nil {
 		return nil, fmt.Errorf("decrypt: %w", err)
 	}
+
+	// Advance the receive window only for authenticated messages, so that a
+	// forged or corrupted frame can never change what is accepted afterwards.
+	s.mu.Lock()
+	if nonceValue < s.recvNonce {
+		expectedValue = s.recvNonce
+		s.mu.Unlock()
+		return nil, fmt.Errorf("nonce too old: received %d, expected >= %d", nonceValue, expectedValue)
+	}
+	s.recvNonce = nonceValue + 1
+	s.mu.Unlock()
 
 	return plaintext, nil
 }
